@@ -184,6 +184,27 @@ def check_get_nasa(run, repo, max_seg):
                           'the segment whose bounds contain T must be selected, got %s' % show(r),
                           owner.module, fn)
             n_inst += 1
+    # segments listed in descending order, and segments that leave a gap: the segment is chosen by its own bounds
+    for nseg in (2, 3):
+        for j in range(nseg):
+            ranks = seg_ranks(nseg)
+            ranks['T'] = 10 * j + 5
+            I = Interp(repo, order=RankOrder(ranks))
+            o, segs = nasa9_obj(I, repo, nseg)
+            o.attrs['_nasas'] = ListV(list(reversed(segs)))
+            r = I.call_method(o, '_get_nasa', [], {'T': I.D.sym('T')})
+            run.check(r is segs[j], 'ORDER.segment', 'nasa.Nasa9._get_nasa', 'segments listed in descending order',
+                      '[%d segments listed from high to low, T inside segment %d] the segment whose own bounds contain '
+                      'T must be selected, got %s' % (nseg, j, show(r)), owner.module, fn)
+            n_inst += 1
+    ranks = {'seg0.T_low': 0, 'seg0.T_high': 10, 'seg1.T_low': 20, 'seg1.T_high': 30, 'T': 15}
+    I = Interp(repo, order=RankOrder(ranks))
+    o, segs = nasa9_obj(I, repo, 2)
+    r = I.call_method(o, '_get_nasa', [], {'T': I.D.sym('T')})
+    run.check(isinstance(r, Raised), 'PATH.refuse', 'nasa.Nasa9._get_nasa', 'gap between segments',
+              'a temperature in a gap between two segments lies outside every segment and must be refused, got %s'
+              % show(r), owner.module, fn)
+    n_inst += 1
     return n_inst
 
 
